@@ -1,16 +1,16 @@
-SPECIFICATION Spec
+SPECIFICATION FairSpec
 CONSTANTS
-  Cap = 1
+  Cap = 2
   Horizon = 2
   AsFound_NaNExitsLoop = FALSE
   AsFound_DecorativeAfterAppend = FALSE
   AsFound_NoSweepAtBigTolerance = FALSE
-  MaxRetries = 1
-  CapBoost = 2
-  SweepAlphabet <- MC_RetrySweeps
-  DecoAlphabet <- MC_RetryDeco
-  BigChoices <- MC_SmallTol
-  LaggedRecordedAtSetup = TRUE
+  MaxRetries = 0
+  CapBoost = 3
+  SweepAlphabet <- MC_AllSweeps
+  DecoAlphabet <- MC_AllDeco
+  BigChoices <- MC_BothBig
+  LaggedRecordedAtSetup = FALSE
   Hyp_NoCap = FALSE
 INVARIANT TypeOK
 INVARIANT C02_SolvedOnlyIfConverged
@@ -22,4 +22,5 @@ INVARIANT C11_EqualLengthsAfterFailure
 INVARIANT LengthsOfSolved
 PROPERTY C11_FailureRaises
 PROPERTY C11_PrefixIntact
+PROPERTY C11_Terminates
 CHECK_DEADLOCK FALSE
